@@ -153,15 +153,16 @@ class Spec:
                 return bad
             return self.resolve(m, path, 'p' if op == "getp" else 'm'), None
         if op == "opt" and n == 3:
-            if num(w[1]) != O or w[2] not in ("sgd", "mom"):
+            if num(w[1]) != O or w[2] not in ("sgd", "mom", "rsgd", "rmom"):
                 return bad
-            self.opts.append([w[2], set(), set()])
+            # [needs statistics, lo, hi, configure_parameter calls are counted]
+            self.opts.append(["mom" if w[2] in ("mom", "rmom") else "sgd", set(), set(), w[2] in ("sgd", "mom")])
             return "ok", None
         if op == "optaddp" and n == 3:
             o, p = idx(w[1], O), idx(w[2], P)
             if o is None or p is None:
                 return bad
-            kind, lo, hi = self.opts[o]
+            kind, lo, hi, _ = self.opts[o]
             if kind == "mom" and not self.pvalid[p]:
                 return "err", None                      # never registered before, so this is a fresh add
             lo.add(p); hi.add(p)
@@ -170,7 +171,7 @@ class Spec:
             o, m = idx(w[1], O), idx(w[2], M)
             if o is None or m is None:
                 return bad
-            kind, lo, hi = self.opts[o]
+            kind, lo, hi, _ = self.opts[o]
             ps = self.enumerate(m)
             if ps is None:
                 return "crash", None
@@ -185,20 +186,26 @@ class Spec:
             o = idx(w[1], O)
             if o is None:
                 return bad
-            kind, lo, hi = self.opts[o]
+            kind, lo, hi, counted = self.opts[o]
+
+            def show(ids):
+                if not ids:
+                    return "ok -"
+                # every registered parameter was configured exactly once
+                return "ok " + ",".join(("%d:1" % i) if counted else str(i) for i in sorted(ids))
             if impl.startswith("ok"):
                 body = impl[3:].strip()
                 try:
-                    ids = [] if body == "-" else [int(t) for t in body.split(",")]
+                    ids = [] if body == "-" else [int(t.split(":")[0]) for t in body.split(",")]
                 except ValueError:
                     return "ok <ids>", None
                 s = set(ids)
-                if len(s) == len(ids) and ids == sorted(ids) and lo <= s <= hi:
+                if len(s) == len(ids) and ids == sorted(ids) and lo <= s <= hi and impl == show(s):
                     self.opts[o][1] = set(s); self.opts[o][2] = set(s)
                     return impl, None
             if lo == hi:
-                return ("ok " + ",".join(map(str, sorted(lo)))) if lo else "ok -", None
-            return "ok <a set between %s and %s>" % (sorted(lo), sorted(hi)), None
+                return show(lo), None
+            return "ok <a set between %s and %s%s>" % (sorted(lo), sorted(hi), ", each configured once" if counted else ""), None
         return bad
 
 
@@ -248,7 +255,7 @@ def random_history(rng, maxops=40):
     sp = Spec(); sp.reset(nm, np_)
     if rng.random() < 0.5:
         lines.append("param %d i" % np_); np_ += 1
-    lines += ["opt 0 sgd", "opt 1 mom"]
+    lines += ["opt 0 sgd", "opt 1 mom", "opt 2 " + rng.choice(["rsgd", "rmom"])]
     for l in lines[1:]:
         sp.expect(l, "")
     nops = rng.randint(5, maxops)
@@ -271,9 +278,54 @@ def random_history(rng, maxops=40):
             return []
         return [rng.choice(names) for _ in range(rng.randint(1, 4))]
 
+    def depth2(root):
+        """models at depth >= 2 below root"""
+        lvl1 = {e[1] for e in sp.models[root].values() if e[0] == 'm'}
+        deep, todo, seen = set(), list(lvl1), set()
+        while todo:
+            x = todo.pop()
+            for e in sp.models[x].values():
+                if e[0] == 'm' and e[1] not in seen:
+                    seen.add(e[1]); deep.add(e[1]); todo.append(e[1])
+        return sorted(deep)
+
+    def emit(line):
+        sp.expect(line, "")
+        out.append(line)
+
     while len(out) - len(lines) < nops:
         r = rng.random()
         m = rng.randrange(nm)
+        if r < 0.10:
+            # late addition below an ancestor that was enumerated before: enumerate, add at depth >= 2, enumerate again
+            cands = [(root, d) for root in range(nm) for d in depth2(root)]
+            if not cands:
+                # grow a chain so that later rounds find one
+                emit("addm %d %s %d" % (m, enc(rng.choice(names)), rng.randrange(nm)))
+                continue
+            root, d = rng.choice(cands)
+            emit("all %d" % root)
+            free = [n for n in names if n not in sp.models[d]] or names
+            if rng.random() < 0.6:
+                emit("addp %d %s %d" % (d, enc(rng.choice(free)), rng.randrange(np_)))
+            else:
+                emit("addm %d %s %d" % (d, enc(rng.choice(free)), rng.randrange(nm)))
+            emit("all %d" % root)
+            k = rng.random()
+            if k < 0.3:
+                emit("trainable %d" % root)
+            elif k < 0.7:
+                o = rng.randrange(3)
+                emit("optaddm %d %d" % (o, root)); emit("optparams %d" % o)
+            continue
+        if r < 0.18:
+            # name and object both registered in m, but not with each other: must be rejected (both overloads)
+            ents = list(sp.models[m].items())
+            if len(ents) >= 2:
+                (n1, e1), (n2, e2) = rng.sample(ents, 2)
+                emit("%s %d %s %d" % ("addp" if e2[0] == 'p' else "addm", m, enc(n1), e2[1]))
+                emit("all %d" % m)
+                continue
         if r < 0.33:
             # submodel add: fresh, re-add, duplicate name/object, self, ancestor (cycle attempt)
             k = rng.random()
@@ -309,11 +361,11 @@ def random_history(rng, maxops=40):
         elif r < 0.88:
             line = ("getm %d " % m + " ".join(enc(n) for n in some_path(m))).strip()
         elif r < 0.92:
-            line = "optaddp %d %d" % (rng.randrange(2), rng.randrange(np_))
+            line = "optaddp %d %d" % (rng.randrange(3), rng.randrange(np_))
         elif r < 0.96:
-            line = "optaddm %d %d" % (rng.randrange(2), m)
+            line = "optaddm %d %d" % (rng.randrange(3), m)
         else:
-            line = "optparams %d" % rng.randrange(2)
+            line = "optparams %d" % rng.randrange(3)
         exp, _ = sp.expect(line, "")
         out.append(line)
         if line.startswith("add") and exp == "err" and rng.random() < 0.7:
@@ -324,7 +376,45 @@ def random_history(rng, maxops=40):
             out.append("optparams " + line.split()[1])
     for mm in range(nm):
         out.append("all %d" % mm)
-    out += ["optparams 0", "optparams 1"]
+    out += ["optparams 0", "optparams 1", "optparams 2"]
+    return out
+
+
+def scenario_history(rng):
+    """A diamond through a shared submodel plus one Parameter in two sibling
+    models; overlapping optimizer registrations (every reachable parameter must
+    end up registered and configured once); enumerations before and after late
+    additions two and three levels below the root; re-adds whose name and object
+    are both registered but not with each other, for both overloads."""
+    a, b, s_, w = rng.sample(NAME_POOL, 4)
+    out = ["reset 5 4", "param 4 i", "opt 0 sgd", "opt 1 mom", "opt 2 " + rng.choice(["rsgd", "rmom"])]
+    build = ["addm 0 %s 1" % enc(a), "addm 0 %s 2" % enc(b), "addm 1 %s 3" % enc(s_), "addm 2 %s 3" % enc(s_),
+             "addp 3 %s 0" % enc(w), "addp 1 %s 1" % enc(w), "addp 2 %s 1" % enc(w)]
+    rng.shuffle(build)
+    out += build + ["all 0"]
+    for _ in range(rng.randint(3, 8)):
+        o = rng.randrange(3)
+        if rng.random() < 0.7:
+            out.append("optaddm %d %d" % (o, rng.randrange(4)))
+        else:
+            out.append("optaddp %d %d" % (o, rng.randrange(2)))
+        out.append("optparams %d" % o)
+    # late additions at depth 2 and 3 below the root, each between two enumerations of the root
+    out += ["all 0", "addm 3 %s 4" % enc(a), "all 0", "addp 4 %s 2" % enc(w), "all 0", "trainable 0",
+            ("getp 0 %s %s %s %s" % (enc(a), enc(s_), enc(a), enc(w))), ("getm 0 %s %s %s" % (enc(b), enc(s_), enc(a)))]
+    for o in rng.sample(range(3), 3):
+        out += ["optaddm %d 0" % o, "optparams %d" % o, "optaddm %d %d" % (o, rng.randrange(5)), "optparams %d" % o]
+    out += ["addp 3 %s 3" % enc(s_), "all 0", "optaddm 0 1", "optparams 0"]
+    # name and object both registered, not paired
+    unpaired = ["addm 0 %s 2" % enc(a), "addm 0 %s 1" % enc(b), "addp 3 %s 0" % enc(a), "addp 1 %s 1" % enc(s_),
+                "addm 1 %s 3" % enc(w), "addp 3 %s 0" % enc(s_), "addp 3 %s 3" % enc(w), "addm 3 %s 4" % enc(w)]
+    rng.shuffle(unpaired)
+    for l in unpaired:
+        out += [l, "all %s" % l.split()[1]]
+    # an invalid parameter appears late, three levels down
+    out += ["all 0", "addp 4 %s 4" % enc(b), "all 0", "optaddm 1 0", "optparams 1", "optaddm 0 0", "optparams 0",
+            "optaddm 2 4", "optparams 2"]
+    out += ["all %d" % m for m in range(5)]
     return out
 
 
@@ -442,7 +532,7 @@ def state_graph_histories(max_adds, nm=3, np_=3, names=(b"a", b"")):
                     lines.append(("getm %d " % m + " ".join(enc(n) for n in p)).strip())
             for m in range(nm):
                 lines += ["opt %d mom" % m, "optaddm %d %d" % (m, m), "optparams %d" % m,
-                          "optaddm %d %d" % (m, m), "optparams %d" % m]
+                          "optaddm %d %d" % (m, m), "optparams %d" % m, "optaddm %d %d" % (m, (m + 1) % nm), "optparams %d" % m]
             assert key(sp) == k0
             yield lines
         frontier = nxt
@@ -515,8 +605,11 @@ def run(chk):
     chk.rule = ("histories over pools of 3-5 real Model objects, 3-5 Parameters (optionally one invalid) and 3-4 names drawn from a pool with the "
                 "empty string, '.', NUL and non-ASCII bytes: Model::add of parameters and submodels (fresh, re-add of the identical pair, duplicate name, "
                 "duplicate object, self, ancestor = cycle attempt of any length, shared submodels/diamonds), get_all/trainable_parameters, get_parameter/"
-                "get_submodel with reachable, partial, overlong, wrong and empty paths, Optimizer::add of parameters and models on an SGD and a MomentumSGD "
-                "optimizer with the registered set read back; every rejected add is followed by enumerations. Each history runs on the real library "
+                "get_submodel with reachable, partial, overlong, wrong and empty paths, Optimizer::add of parameters and models on optimizers that configure like "
+                "SGD / MomentumSGD (own subclasses that count configure_parameter calls per Parameter: exactly 1 for every registered one) and on the library's "
+                "own classes, with the registered set read back; every rejected add is followed by enumerations; enumerate-root / add at depth >= 2 / "
+                "enumerate-root again interleavings; adds whose name and object are both registered but not with each other (both overloads); scenario "
+                "histories with a diamond and one Parameter in two sibling models registered through overlapping models. Each history runs on the real library "
                 "(ASan/UBSan), on the Lean model and on a dictionary specification written from the property text. thorough adds every history of <= 4 adds "
                 "over 3 models/3 params/2 names up to renaming, and every registry state reachable by <= 6 accepted adds over those pools with every rejected "
                 "add, every lookup path of length <= 3 and optimizer registration tried from it. Non-trivial = a line the implementation answered with ok; "
@@ -539,6 +632,7 @@ def run(chk):
             hs.append(cur)
     n_random = 500 if quick else 20000
     hs += [random_history(rng) for _ in range(n_random)]
+    hs += [scenario_history(rng) for _ in range(n_random // 4)]
     hs += [malformed_history(rng) for _ in range(5 if quick else 50)]
     runner.run(hs)
     if not quick:
